@@ -186,38 +186,86 @@ func checkC09(w *World, r *Report) {
 				"temp pattern "+p+" cannot collide with "+dstName, "temp pattern can collide with the published name")
 		}
 		// 3. Encode(data) on that file returned nil on every path to the rename
+		// (directly, or in a helper that gets the file and the snapshot and returns Encode's result)
 		var encode *ssa.Call
-		for _, ci := range findCalls(pub, func(n string, _ *ssa.CallCommon) bool {
-			return strings.HasSuffix(n, ".Encode") || n == "invoke:Encode"
-		}) {
-			call, ok := ci.(*ssa.Call)
-			if !ok {
-				continue
+		var encodedVal ssa.Value // the value that is encoded, in terms of the publishing function
+		encodeIn := func(fn *ssa.Function, file ssa.Value) (*ssa.Call, ssa.Value) {
+			var found *ssa.Call
+			var val ssa.Value
+			for _, ci := range findCalls(fn, func(n string, _ *ssa.CallCommon) bool {
+				return strings.HasSuffix(n, ".Encode") || n == "invoke:Encode"
+			}) {
+				call, ok := ci.(*ssa.Call)
+				if !ok {
+					continue
+				}
+				cc := &call.Call
+				// encoder := X.NewEncoder(file)
+				var enc ssa.Value
+				if cc.IsInvoke() {
+					enc = cc.Value
+				} else if len(cc.Args) > 0 {
+					enc = cc.Args[0]
+				}
+				ne, ok := w.Resolve(enc).(*ssa.Call)
+				if !ok || !strings.HasSuffix(calleeName(&ne.Call), "NewEncoder") || len(ne.Call.Args) == 0 {
+					continue
+				}
+				if w.Resolve(ne.Call.Args[len(ne.Call.Args)-1]) != file {
+					continue
+				}
+				found = call
+				val = w.Resolve(cc.Args[len(cc.Args)-1])
 			}
-			cc := &call.Call
-			// encoder := X.NewEncoder(tmpFile)
-			var enc ssa.Value
-			if cc.IsInvoke() {
-				enc = cc.Value
-			} else if len(cc.Args) > 0 {
-				enc = cc.Args[0]
+			return found, val
+		}
+		encode, encodedVal = encodeIn(pub, tmpFile)
+		if encode == nil {
+			for _, ci := range findCalls(pub, func(_ string, c *ssa.CallCommon) bool {
+				f := c.StaticCallee()
+				return f != nil && f.Blocks != nil && w.InModule(f)
+			}) {
+				call, ok := ci.(*ssa.Call)
+				if !ok {
+					continue
+				}
+				h := call.Call.StaticCallee()
+				for i, a := range call.Call.Args {
+					if w.Resolve(a) != tmpFile || i >= len(h.Params) {
+						continue
+					}
+					inner, val := encodeIn(h, h.Params[i])
+					if inner == nil {
+						continue
+					}
+					// the helper hands Encode's error back on every return
+					delegates := true
+					allInstrs(h, func(in ssa.Instruction) {
+						if rt, ok := in.(*ssa.Return); ok && rt.Block() != h.Recover {
+							if len(rt.Results) == 0 || w.Resolve(rt.Results[len(rt.Results)-1]) != ssa.Value(inner) {
+								delegates = false
+							}
+						}
+					})
+					if !delegates {
+						continue
+					}
+					encode = call
+					if p, ok := val.(*ssa.Parameter); ok && p.Parent() == h && paramIdxOf(p) < len(call.Call.Args) {
+						encodedVal = w.Resolve(call.Call.Args[paramIdxOf(p)])
+					} else {
+						encodedVal = val
+					}
+					r.Anchor("encode helper (returns Encode's error)", FuncName(h))
+				}
 			}
-			ne, ok := w.Resolve(enc).(*ssa.Call)
-			if !ok || !strings.HasSuffix(calleeName(&ne.Call), "NewEncoder") || len(ne.Call.Args) == 0 {
-				continue
-			}
-			if w.Resolve(ne.Call.Args[len(ne.Call.Args)-1]) != tmpFile {
-				continue
-			}
-			encode = call
 		}
 		if !r.Check(encode != nil, "protocol.encode", fname+": Encode into the temp file", pos,
 			"an Encode call writes through NewEncoder(temp file)", "no Encode call writes into the temp file that is renamed: an empty or foreign file is published") {
 			continue
 		}
 		// the encoded value is the function's data parameter
-		encArgs := encode.Call.Args
-		encVal := w.Resolve(encArgs[len(encArgs)-1])
+		encVal := encodedVal
 		isParam := false
 		for _, p := range pub.Params {
 			if encVal == ssa.Value(p) && strings.HasSuffix(p.Type().String(), "PersistedData") {
@@ -225,7 +273,7 @@ func checkC09(w *World, r *Report) {
 			}
 		}
 		r.Check(isParam, "protocol.encode-arg", fname+": value encoded", w.InstrPos(encode),
-			"Encode receives the *PersistedData parameter itself", "Encode receives "+w.AP(encArgs[len(encArgs)-1])+", not the snapshot passed to the save")
+			"Encode receives the *PersistedData parameter itself", "Encode receives "+w.AP(encVal)+", not the snapshot passed to the save")
 		tests := w.nilTests(pub, encode)
 		if len(tests) == 0 {
 			r.Viol("protocol.encode-checked", fname+": Encode error", w.InstrPos(encode), "the error returned by Encode is never tested: a failed or short write would be published")
@@ -327,6 +375,22 @@ func checkC09(w *World, r *Report) {
 		for _, ci := range findCalls(load, func(n string, _ *ssa.CallCommon) bool { return isOSFunc(n, "Open") }) {
 			arg := w.Resolve(ci.Common().Args[0])
 			dir, name := "", ""
+			// a helper method of the same receiver that returns the joined path
+			if hc, ok := arg.(*ssa.Call); ok {
+				if g := hc.Call.StaticCallee(); g != nil && g.Blocks != nil && w.InModule(g) && len(hc.Call.Args) == 1 && w.AP(hc.Call.Args[0]) == "recv" {
+					var inner ssa.Value
+					nret := 0
+					allInstrs(g, func(in ssa.Instruction) {
+						if rt, ok := in.(*ssa.Return); ok && len(rt.Results) == 1 && rt.Block() != g.Recover {
+							nret++
+							inner = w.Resolve(rt.Results[0])
+						}
+					})
+					if nret == 1 {
+						arg = inner
+					}
+				}
+			}
 			if jc, ok := arg.(*ssa.Call); ok && strings.HasSuffix(calleeName(&jc.Call), ".Join") {
 				if el := w.variadicElems(jc.Call.Args[0]); len(el) == 2 {
 					dir = w.AP(el[0])
@@ -457,6 +521,32 @@ func (w *World) publishedNameUse(in ssa.Instruction, helper *ssa.Function, dstId
 					default:
 						uses = append(uses, n)
 					}
+				} else if rt, isRet := u.(*ssa.Return); isRet && w.InModule(rt.Parent()) {
+					// a helper that returns the path: classify what its callers do with it
+					g := rt.Parent()
+					for _, caller := range w.ModFuncs {
+						for _, ci := range findCalls(caller, func(_ string, c *ssa.CallCommon) bool { return c.StaticCallee() == g }) {
+							cv, ok := ci.(*ssa.Call)
+							if !ok || cv.Referrers() == nil {
+								continue
+							}
+							for _, u2 := range *cv.Referrers() {
+								if c2 := callCommonOf(u2); c2 != nil {
+									n2 := calleeName(c2)
+									switch {
+									case isOSFunc(n2, "Rename") && len(c2.Args) == 2 && c2.Args[1] == ssa.Value(cv) && c2.Args[0] != ssa.Value(cv):
+										uses = append(uses, "os.Rename:dst")
+									case n2 == "os.Open":
+										uses = append(uses, "os.Open")
+									default:
+										uses = append(uses, n2)
+									}
+								} else if _, isDbg := u2.(*ssa.DebugRef); !isDbg {
+									uses = append(uses, fmt.Sprintf("%T", u2))
+								}
+							}
+						}
+					}
 				} else if _, isDbg := u.(*ssa.DebugRef); !isDbg {
 					uses = append(uses, fmt.Sprintf("%T", u))
 				}
@@ -473,7 +563,25 @@ func (w *World) publishedNameUse(in ssa.Instruction, helper *ssa.Function, dstId
 // codecGlobals returns the package-level variables whose NewEncoder/NewDecoder method is invoked in fn.
 func codecGlobals(w *World, fn *ssa.Function, method string) []string {
 	var out []string
-	for _, ci := range findCalls(fn, func(n string, _ *ssa.CallCommon) bool { return strings.HasSuffix(n, method) }) {
+	// the function and the module helpers it calls directly (an extracted encode/decode helper)
+	fns := []*ssa.Function{fn}
+	allInstrs(fn, func(in ssa.Instruction) {
+		if c := callCommonOf(in); c != nil {
+			if g := c.StaticCallee(); g != nil && g.Blocks != nil && w.InModule(g) && g.Package() == fn.Package() {
+				fns = append(fns, g)
+			}
+		}
+	})
+	seen := map[*ssa.Function]bool{}
+	var calls []ssa.CallInstruction
+	for _, f := range fns {
+		if seen[f] {
+			continue
+		}
+		seen[f] = true
+		calls = append(calls, findCalls(f, func(n string, _ *ssa.CallCommon) bool { return strings.HasSuffix(n, method) })...)
+	}
+	for _, ci := range calls {
 		c := ci.Common()
 		var recv ssa.Value
 		if c.IsInvoke() {
